@@ -4,7 +4,7 @@ from __future__ import annotations
 ID = "C40"
 BOUNDS = {
     "quick": "one step from an arbitrary valid TravelCalculator state: last known position and target from {0, 37, 100} (all 9 pairs), every travel direction (UP, DOWN, STOPPED), confirmed flag where last == target, travel times (down, up) = (25, 20) s and (0.5, 0.5) s; the stored timestamp is 1000.0 s; every time.time() call is its own symbolic reading t = 1000 + k * 2^-10 s (k integer, 0 <= k < 2^16, i.e. up to 64 s later), non-decreasing across calls, optionally forced equal to the previous reading; steps: current_position(), two successive current_position() calls whose readings are equal or one tick (2^-10 s) apart (monotonicity for all pairs of readings follows by induction over ticks), stop(), start_travel(p), update_position(p), set_position(p) with p from the same set, each followed by current_position()/is_traveling(); Cover.current_position() delegates to the same calculator",
-    "thorough": "as quick plus travel times (600, 600) with k < 2^21, positions {0, 1, 37, 50, 99, 100} and the timestamp 1.75e9 s; plus a full-width hunt where readings are arbitrary finite doubles in [0, 2^31] (counterexamples only, 120 s per query)",
+    "thorough": "as quick plus travel times (600, 600) with k < 2^21, positions {0, 1, 37, 100} and the timestamp 1.75e9 s; plus a full-width hunt where readings are arbitrary finite doubles in [0, 2^31] (counterexamples only, 120 s per query)",
 }
 OUTSIDE = "clock readings that are not multiples of 2^-10 s or more than 64 s (2048 s for 600 s travel times) after the timestamp; other timestamps; positions outside the stated set; non-monotonic clocks; Cover's periodic update and auto-stop tasks"
 ASSUMPTIONS = [
@@ -19,7 +19,7 @@ TICK = 2.0 ** -10
 
 
 def positions(tier):
-    return [0, 37, 100] if tier == "quick" else [0, 1, 37, 50, 99, 100]
+    return [0, 37, 100] if tier == "quick" else [0, 1, 37, 100]
 
 
 def jobs(tier, seed):
@@ -63,7 +63,7 @@ def run_job(job, rep):
 
     fp.MODE["mode"] = "exact"
     fp.MODE["round_ndigits"] = None
-    core.QUERY_TIMEOUT_MS[0] = (150000 if job["step"] == "query2" else 40000) if job["tier"] == "quick" else 400000
+    core.QUERY_TIMEOUT_MS[0] = (150000 if job["step"] == "query2" else 40000) if job["tier"] == "quick" else 200000
     POS = positions(job["tier"])
     tt = tuple(job["tt"])
     step = job["step"]
@@ -242,7 +242,7 @@ def run_job(job, rep):
                             st, mm = c.prove(cond)
                             rep.ob(st, sig, mcase(mm) if mm is not None else case, label)
                     rep.sample(dict(label=label, witness=case["reads"]), limit=1)
-                _, st = core.explore(run, on_path=judge, stop=rep.enough, timeout=(400 if step == "query2" else 60) if job["tier"] == "quick" else 2400, path_timeout=(170 if step == "query2" else 45) if job["tier"] == "quick" else 450)
+                _, st = core.explore(run, on_path=judge, stop=rep.enough, timeout=(400 if step == "query2" else 60) if job["tier"] == "quick" else 900, path_timeout=(170 if step == "query2" else 45) if job["tier"] == "quick" else 230)
                 rep.add_stats(st)
 
 
